@@ -177,8 +177,8 @@ func bceCrossCheck(c *Ctx) map[string]interface{} {
 	}
 	// functions analysed: by file+line ranges
 	type span struct {
-		file       string
-		from, to   int
+		file     string
+		from, to int
 	}
 	var spans []span
 	roots := c07Roots(&Ctx{P: c.P, ruleCount: map[string]int{}, seenKeys: map[string]bool{}, Extra: map[string]interface{}{}}, "x")
